@@ -82,6 +82,24 @@ def gen_cases(ctx):
             doc = [elem(('t', 'ok', typed[t]), pos + 1) for pos, t in enumerate(seq)]
             for disp in DISPS[:4]:
                 yield dict(part='d', disp=disp, mbs=None, doc=doc)
+    # (e) long batches: lengths around powers of two and other round numbers (chunking / slicing thresholds), a few patterns each
+    for L in (5, 8, 16, 17, 31, 32, 33, 50, 63, 64, 65, 100, 127, 128, 129, 255, 256, 257, 500, 1000, 1001):
+        for pattern in ('calls', 'alternate', 'last-fails', 'notifs-then-call'):
+            doc = []
+            for i in range(L):
+                if pattern == 'calls':
+                    doc.append(elem(KINDS[0], i + 1))
+                elif pattern == 'alternate':
+                    doc.append(elem(KINDS[i % len(KINDS)], (i + 1) if i % 2 == 0 else '__absent__'))
+                elif pattern == 'last-fails':
+                    doc.append(elem(KINDS[3] if i == L - 1 else KINDS[1], i + 1))
+                else:
+                    doc.append(elem(KINDS[0], L if i == L - 1 else '__absent__'))
+            for disp in DISPS[:4]:
+                yield dict(part='e', disp=disp, mbs=None, doc=doc)
+                if pattern == 'calls':
+                    yield dict(part='e', disp=disp, mbs=L, doc=doc)
+                    yield dict(part='e', disp=disp, mbs=L - 1, doc=doc)
     # (c) max_batch_size at and around the length
     small = [('e', KINDS[0], 'call'), ('e', KINDS[0], 'notif'), ('e', KINDS[3], 'call'), ('e', KINDS[6], 'notif'),
              ('i', 1, None)]
@@ -165,7 +183,7 @@ def run_case(case, rec):
 def run(ctx):
     ctx.rule = ('E1 product enumeration: every single request over element kinds x id typings; every batch of '
                 'length <= %d over 17 element types with distinct ids; every id assignment over %r for batches of '
-                'length <= %d with one failing element at each position; max_batch_size around the length; both '
+                'length <= %d with one failing element at each position; max_batch_size around the length; equal-valued arguments of different JSON types in batches <= 3; long batches (21 lengths 5..1001 around round numbers, 4 patterns); both '
                 'dispatchers (sync, async, async with sequential batches, async with plain functions returning coroutines).  state = one (configuration, document) point, all distinct by construction; '
                 'non-trivial = accepted batch (compared element-wise with its elements sent alone)'
                 % (ctx.pick(3, 4), ID_ALPHABET, ctx.pick(3, 4)))
